@@ -1,5 +1,6 @@
 """C14 partitions: correspondence (model C14/Model.v vs odl.discr.partition & friends) + probes."""
 import itertools
+import random
 
 import numpy as np
 
@@ -125,6 +126,29 @@ def rand_axis(rng, nmax=6, n=None):
     else:
         lo, hi = cs[0] - rng.choice(DY), cs[-1] + rng.choice(DY)
     return lo, hi, cs
+
+
+def rand_axis_scaled(rng, n=None):
+    """Axis at another length scale / far from the origin; all numbers exact in binary64."""
+    n = n or rng.choice([1, 2, 3, 4, 5])
+    off = rng.choice([0.0, 0.0, 2.0 ** 10, -2.0 ** 10, 2.0 ** 20, -2.0 ** 20])
+    step = 2.0 ** rng.choice([-30, -20, -10, 0, 10])
+    cs = [off + i * step for i in range(n)]
+    m = rng.random()
+    if m < 0.5:
+        lo, hi = cs[0] - step / 2, cs[-1] + step / 2
+    elif m < 0.7:
+        lo, hi = cs[0], cs[-1]
+    else:
+        lo, hi = cs[0] - step * rng.choice([0.25, 1.0, 3.0]), cs[-1] + step * rng.choice([0.25, 1.0, 3.0])
+    return lo, hi, cs
+
+
+def near(v, k):
+    """v moved by k units in the last place (k < 0: downwards)"""
+    for _ in range(abs(k)):
+        v = float(np.nextafter(v, np.inf if k > 0 else -np.inf))
+    return v
 
 
 def mkpart(axes):
@@ -381,16 +405,22 @@ def correspondence(rng, tier):
                 {'op': 'history', 'cs': css, 'limits': lims, 'k': k, 'trace': trace, 'read_order': order})
 
     # ---- OIndex
-    for _ in range(60 * N):
-        p = rand_part(rng)
+    for it in range(75 * N):
+        if it % 5 < 2:
+            p = mkpart([rand_axis_scaled(rng) for _ in range(rng.choice([1, 1, 2]))])
+        else:
+            p = rand_part(rng)
         pts = []
         bd = p.cell_boundary_vecs
         for _ in range(6):
             x = []
             for ax in range(p.ndim):
                 r = rng.random()
-                if r < 0.4:
+                if r < 0.25:
                     x.append(float(rng.choice(bd[ax].tolist())))              # on an edge
+                elif r < 0.45:                                                # a few ulps beside an edge, inside the set
+                    v = near(float(rng.choice(bd[ax].tolist())), rng.choice([-3, -2, -1, 1, 2, 3]))
+                    x.append(min(max(v, float(p.min_pt[ax])), float(p.max_pt[ax])))
                 elif r < 0.55:
                     x.append(float(rng.choice(p.coord_vectors[ax].tolist())))  # a grid point
                 elif r < 0.92:
@@ -1143,6 +1173,113 @@ def probes(rng, tier):
               "def run():\n    c = S.collapse(cidx, vals if not isinstance(cidx, int) else vals[0])\n    return (c.min_pt.tolist(), c.max_pt.tolist())\n"
               "expected = outcome(ref); observed = outcome(run); ok = observed == expected and A(p) == ax0\n" % (cidx,))
 
+    # -- P14 index() / index(floating=True) near cell edges, exact rational oracle, length scales 1e-9 .. 1e6,
+    #    offsets up to 1e6: p = edge +- k ulp, edge +- r * cell width (r = 1e-9 .. 1e-4), edges, grid points
+    idx_exact = (
+        "from fractions import Fraction as Fr\n"
+        "ok = True; observed = []\n"
+        "b = p.cell_boundary_vecs[0]; B = [Fr(float(v)) for v in b]; n = len(b) - 1\n"
+        "for x in pts:\n"
+        "    X = Fr(x)\n"
+        "    if not (B[0] <= X <= B[-1]):\n        continue\n"
+        "    want = n - 1 if X == B[-1] else max(k for k in range(n) if B[k] <= X)\n"
+        "    got = p.index(x); f = p.index(x, floating=True)\n"
+        "    w = B[want + 1] - B[want]\n"
+        "    fw = want + (X - B[want]) / w if w else Fr(want)\n"
+        "    good = got == want and abs(Fr(float(f)) - fw) <= Fr(1, 10 ** 6)\n"
+        "    if not good:\n        ok = False; observed.append((x, int(got), float(f), want, float(fw)))\n"
+        "expected = 'the cell [b_k, b_k+1) containing p (last edge -> last cell), floating = k + (p - b_k) / width'\n")
+    for _ in range(40 * N):
+        scale = 10.0 ** rng.choice([-9, -8, -7, -5, -3, 0, 2, 4, 6])
+        off = rng.choice([0.0, 0.0, 1.0, 1000.0, -1000.0, 1e6, -1e6]) * rng.choice([1.0, scale if scale >= 1 else 1.0])
+        n = rng.choice([1, 2, 3, 10, 17])
+        kind = rng.choice(['uniform', 'uniform', 'nonuniform'])
+        if kind == 'uniform':
+            ctor = 'odl.uniform_partition(%r, %r, %d, nodes_on_bdry=%r)' % (off, off + n * scale * rng.choice([1.0, 0.5, 3.0]), n,
+                                                                            rng.choice([False, True, (True, False)]))
+        else:
+            c = [off]
+            for _i in range(n - 1):
+                c.append(c[-1] + scale * rng.choice([0.5, 1.0, 2.5]))
+            ctor = 'odl.nonuniform_partition(%r, min_pt=%r, max_pt=%r)' % (c, c[0] - scale * rng.choice([0.0, 0.5, 2.0]),
+                                                                           c[-1] + scale * rng.choice([0.0, 0.5, 2.0]))
+        src = (_PRE + "p = %s\n" % ctor +
+               "b = p.cell_boundary_vecs[0]; c = p.coord_vectors[0]; pts = list(b) + list(c)\n"
+               "for e in b:\n"
+               "    for k in (1, 2, 5):\n"
+               "        u = float(e); d = float(e)\n"
+               "        for _ in range(k):\n            u = np.nextafter(u, np.inf); d = np.nextafter(d, -np.inf)\n"
+               "        pts += [u, d]\n"
+               "    w = float(p.extent[0]) / max(1, len(c))\n"
+               "    for r in (1e-9, 1e-8, 1e-7, 1e-6, 1e-5, 1e-4, 1e-2):\n"
+               "        pts += [float(e) + r * w, float(e) - r * w, float(e) * (1 + r), float(e) * (1 - r)]\n"
+               "pts = [float(x) for x in pts]\n" + idx_exact)
+        probe('index-near-edges-exact', 'index(p) / floating index for points within a few ulp .. 1e-4 of a cell edge, at length '
+              'scales 1e-9 .. 1e6 and offsets up to 1e6, against exact rational comparison with the boundaries', src)
+
+    # -- P15 every factory x axis lengths 1, 2, 3 x every subset of explicit limits x nodes_on_bdry: the domain limits
+    #    are the requested ones (defaults otherwise) and the cells tile the domain
+    fac_chk = (
+        "def want_lim(c, given, flag, left):\n"
+        "    if given is not None:\n        return given\n"
+        "    if flag or len(c) == 1:\n        return c[0] if left else c[-1]\n"
+        "    return c[0] - (c[1] - c[0]) / 2 if left else c[-1] + (c[-1] - c[-2]) / 2\n"
+        "ok = p.ndim == len(css)\n"
+        "for ax in range(len(css)):\n"
+        "    c = css[ax]; b = p.cell_boundary_vecs[ax]\n"
+        "    lo = want_lim(c, mins[ax], flags[ax][0], True); hi = want_lim(c, maxs[ax], flags[ax][1], False)\n"
+        "    ok = ok and abs(p.min_pt[ax] - lo) <= 1e-12 * max(1, abs(lo)) and abs(p.max_pt[ax] - hi) <= 1e-12 * max(1, abs(hi))\n"
+        "    ok = ok and p.coord_vectors[ax].tolist() == c and len(b) == len(c) + 1 and b[0] == p.min_pt[ax] and b[-1] == p.max_pt[ax]\n"
+        "    ok = ok and bool(np.all(np.diff(b) >= 0) and np.all(b[:-1] <= np.array(c)) and np.all(np.array(c) <= b[1:]))\n"
+        "ok = bool(ok); observed = (p.min_pt.tolist(), p.max_pt.tolist()); expected = (mins, maxs, flags)\n")
+    for lens in itertools.product([1, 2, 3], repeat=2):
+        for _ in range(2 * N):
+            nd = rng.choice([1, 2])
+            css, mins, maxs, flags = [], [], [], []
+            for n in lens[:nd]:
+                c0 = rng.choice([-2.0, 0.0, 0.5, 5.0])
+                c = [c0]
+                for _i in range(n - 1):
+                    c.append(c[-1] + rng.choice([0.5, 1.0, 2.0]))
+                sub = rng.choice(['none', 'min', 'max', 'both'])
+                mn = c[0] - rng.choice([0.0, 0.5, 1.0]) if sub in ('min', 'both') else None
+                mx = c[-1] + rng.choice([0.0, 0.5, 2.0]) if sub in ('max', 'both') else None
+                fl = (mn is None and rng.random() < 0.4, mx is None and rng.random() < 0.4)
+                css.append(c); mins.append(mn); maxs.append(mx); flags.append(fl)
+            head = _PRE + "css = %r; mins = %r; maxs = %r; flags = %r\n" % (css, mins, maxs, flags)
+            kw = []
+            if any(v is not None for v in mins):
+                kw.append('min_pt=mins' if nd > 1 else 'min_pt=mins[0]')
+            if any(v is not None for v in maxs):
+                kw.append('max_pt=maxs' if nd > 1 else 'max_pt=maxs[0]')
+            probe('factory-limits-nonuniform', 'nonuniform_partition: axis lengths %r, given limits are kept, defaults otherwise, cells tile the domain' % (lens[:nd],),
+                  head + "p = odl.nonuniform_partition(*css, nodes_on_bdry=flags%s)\n" % ''.join(', ' + k for k in kw) + fac_chk)
+            # uniform_partition_fromgrid: no nodes_on_bdry; a missing limit on a one-point axis must be a ValueError
+            need = any(len(c) == 1 and (mn is None or mx is None) for c, mn, mx in zip(css, mins, maxs))
+            dmin = {i: v for i, v in enumerate(mins) if v is not None}
+            dmax = {(i - nd): v for i, v in enumerate(maxs) if v is not None}
+            src = (head + "flags = [(False, False)] * len(css)\n"
+                   "try:\n    p = odl.uniform_partition_fromgrid(odl.RectGrid(*css), min_pt=%r, max_pt=%r)\n    err = None\n"
+                   "except ValueError:\n    p = None; err = 'ValueError'\n" % (dmin or None, dmax or None))
+            if need:
+                src += "ok = err == 'ValueError'; observed = err; expected = 'ValueError'\n"
+            else:
+                src += "assert err is None\n" + fac_chk
+            probe('factory-limits-fromgrid', 'uniform_partition_fromgrid: axis lengths %r, given limits (dict form) are kept' % (lens[:nd],), src)
+            # the uniform factories: min_pt / max_pt are the limits, any shape incl. 1
+            lo = [c[0] - 0.5 for c in css]; hi = [c[-1] + 1.0 for c in css]; shp = [len(c) for c in css]
+            fl2 = [(rng.random() < 0.5, rng.random() < 0.5) for _c in css]
+            src = (_PRE + "lo = %r; hi = %r; shp = %r; fl = %r\n" % (lo, hi, shp, fl2) +
+                   "ps = [odl.uniform_partition(lo, hi, shp, nodes_on_bdry=fl), odl.uniform_partition_fromintv(odl.IntervalProd(lo, hi), shp, nodes_on_bdry=fl)]\n"
+                   "ok = True\n"
+                   "for p in ps:\n"
+                   "    ok = ok and p.min_pt.tolist() == lo and p.max_pt.tolist() == hi and list(p.shape) == shp\n"
+                   "    for ax in range(p.ndim):\n"
+                   "        b = p.cell_boundary_vecs[ax]; c = p.coord_vectors[ax]\n"
+                   "        ok = ok and b[0] == lo[ax] and b[-1] == hi[ax] and bool(np.all(np.diff(b) > 0) and np.all(b[:-1] <= c) and np.all(c <= b[1:]))\n"
+                   "ok = bool(ok); observed = [(p.min_pt.tolist(), p.max_pt.tolist()) for p in ps]; expected = (lo, hi)\n")
+            probe('factory-limits-uniform', 'uniform_partition / uniform_partition_fromintv: shapes %r incl. 1, limits are the requested ones, cells tile' % (shp,), src)
+
     # -- P6 every consistent subset of (min_pt, max_pt, shape, cell_sides) gives the same partition
     for _ in range(40 * N):
         xmin, xmax, n, dx, fl = uniform_axis_params(rng, dyadic=rng.random() < 0.5)
@@ -1158,6 +1295,17 @@ def probes(rng, tier):
         key = 'uniform-one-point-nodes-on-bdry' if (n == 1 and any(fl)) else 'uniform-parameter-subsets'
         probe(key, 'all consistent subsets of (min_pt, max_pt, shape, cell_sides) describe the same partition with that cell side', src)
     return out
+
+
+def search(rng, broken):
+    """Something (translator, proof, shard) is broken and the quick probes found no input: run the oracle probes at the
+    thorough tier with fresh seeds and hand back the first failing one that is not a listed finding."""
+    known = C.load_findings(PID)
+    for k in range(3):
+        for p in probes(random.Random('C14-search-%d-%r' % (k, rng.random())), 'thorough'):
+            if not p.ok and p.key not in known:
+                return p
+    return None
 
 
 RULE = ('random operations on random rectangular partitions (1-4 axes, 1-7 points per axis, dyadic limits, '
